@@ -104,7 +104,15 @@ let eval (fields : string list) (fail : string -> string -> unit) (bump : string
             | M.FList cap -> l <= int_of_n cap
             | M.FVec n -> l = int_of_n n
             | M.FDyn -> l > 0 && l mod 8 = 0 in
-          if not ok then fail "oracle.C13" ("length " ^ len ^ " violates the bound of " ^ fl)
+          if not ok then fail "oracle.C13" ("length " ^ len ^ " violates the bound of " ^ fl);
+          (* what is held is what is reported: the byte view has exactly the bytes of `len` bits, so no
+             bits exist beyond the bound (fields: status|present|len|bits|nsb|hsb|zero|slice|..) *)
+          (match String.split_on_char '|' o with
+           | _ :: _ :: _ :: _ :: _ :: _ :: _ :: slice :: _ when slice <> "-" ->
+             let nbytes = String.length slice / 2 in
+             if nbytes <> max 1 ((l + 7) / 8) then
+               fail "oracle.C13" ("the value reports " ^ len ^ " bits but holds " ^ string_of_int nbytes ^ " bytes")
+           | _ -> ())
         | _ -> ()) crate;
     if List.exists (fun o -> String.length o > 0 && o.[0] = '2') crate then
       fail "oracle.C05" "a bitfield operation panicked"
